@@ -95,6 +95,15 @@ class Box:
         view['queries'].append(q)
         return q
 
+    async def twin_pair(self, view: dict, gen) -> None:
+        """The same program as SEARCH and then as UID SEARCH on a view that may
+        hold hidden expunged messages (the UID SEARCH ends that state)."""
+        rng = self.rng
+        prog = gen.program() if rng.random() < 0.5 else [gen.key(rng.choice([0, 0, 1]))]
+        qs = await self.query('a', view, prog, False, 'p1-twin')
+        qu = await self.query('a', view, prog, True, 'p1-uid')
+        qs['twin'] = qu
+
     async def localise(self, view: dict) -> None:
         """For every query the RFC evaluator rejects, ask the server about each
         leaf key on its own (plain SEARCH: the view does not change) and keep
@@ -169,8 +178,31 @@ class Box:
         again = await self.probe('a', uid=False)
         view['stable'] = [(x['uid'], x['seq'], x['flags']) for x in again] == \
             [(x['uid'], x['seq'], x['flags']) for x in raw]
-        # the first UID SEARCH still runs over that view (EXPUNGEs are sent with it)
-        await self.query('a', view, gen.program(), True, 'p1-uid')
+        # the first UID SEARCH still runs over that view (the EXPUNGEs are sent with
+        # it): it must report the same messages as SEARCH, hidden expunged ones included
+        await self.twin_pair(view, gen)
+        # ---- more rounds: session b expunges one more message, session a searches again
+        for _round in range(2):
+            left = len(view['recs']) if not expunged else None
+            r = await self.send('b', b'b4 NOOP\r\n')
+            r = await self.send('b', b'b5 SEARCH ALL\r\n')
+            alive = [int(x) for ln in r.split(b'\r\n') if ln.startswith(b'* SEARCH') for x in ln[8:].split()]
+            if not alive or rng.random() < 0.3:
+                break
+            await self.send('b', b'b6 STORE %d +FLAGS.SILENT (\\Deleted)\r\n' % rng.choice(alive))
+            await self.send('b', b'b7 EXPUNGE\r\n')
+            raw_n = await self.probe('a', uid=False)
+            view_n = {'raw': raw_n, 'recs': [S.oracle_record(x) for x in raw_n], 'queries': [],
+                      'phase': 1, 'hidden_expunged': True}
+            self.views.append(view_n)
+            gen_n = S.KeyGen(rng, view_n['recs'])
+            for _ in range(max(2, nq1 // 6)):
+                await self.query('a', view_n, gen_n.program(), False, 'p1')
+            await self.localise(view_n)
+            again = await self.probe('a', uid=False)
+            view_n['stable'] = [(x['uid'], x['seq'], x['flags']) for x in again] == \
+                [(x['uid'], x['seq'], x['flags']) for x in raw_n]
+            await self.twin_pair(view_n, gen_n)
         # ---- phase 2: synchronised view, every program as SEARCH and UID SEARCH
         raw2 = await self.probe('a', uid=True)
         view2 = {'raw': raw2, 'recs': [S.oracle_record(x) for x in raw2], 'queries': [],
@@ -371,43 +403,48 @@ def _view_ok_for_model(view: dict) -> str | None:
 def section_search(ctx) -> None:
     _install_recorder()
     rng = ctx.rng
-    n_boxes = ctx.scale(60, 1500)
-    nq1, nq2 = 24, 8
+    n_boxes = ctx.scale(40, 1200)
+    nq1, nq2 = 36, 12
     stats = {'queries': 0, 'depth': {}, 'kinds': {}, 'free': 0, 'hits': 0, 'uid_vs_seq': 0,
              'laws': {}, 'hidden_view_queries': 0, 'views': 0, 'messages': 0,
              'views_with_hidden_expunged': 0, 'probe_anomalies': 0}
-    view_cases, view_keep = [], []
-    parse_cases, parse_keep = [], []
+    box_cases, box_keep = [], []
     for i in range(n_boxes):
         box = Box(ctx, _random.Random(rng.getrandbits(64)), i)
         run_async(box.scenario(nq1, nq2), timeout=300)
+        pool: dict = {}
+        vterms, vkeep = [], []
         for view in box.views:
             stats['views'] += 1
             stats['messages'] += len(view['recs'])
             stats['views_with_hidden_expunged'] += 1 if view.get('hidden_expunged') else 0
             monitor_view(ctx, box, view, stats)
             why = _view_ok_for_model(view)
+            for rec in view['recs']:
+                old = pool.setdefault(rec['uid'], rec)
+                if S.content_key(old) != S.content_key(rec):
+                    why = why or f'uid {rec["uid"]}: immutable message data changed between probes'
             if why is not None:
                 stats['probe_anomalies'] += 1
                 ctx.extra.setdefault('probe_anomalies', []).append(why)
                 continue
             qterms, qkeep = [], []
             for q in view['queries']:
-                if q['parsed'] is not None:
-                    try:
-                        sk = T.lst(S.enc_skey(x) for x in q['parsed'])
-                    except ValueError as exc:
-                        ctx.disagreement('search_parse', {'wire': q['wire'].decode('latin-1'),
-                                                          'unrepresentable': str(exc)})
-                    else:
-                        parse_cases.append(T.pair(S.enc_prog(q['prog']), sk))
-                        parse_keep.append((box, q))
-                if q['status'] == b'OK' and q['ids'] is not None:
-                    qterms.append(T.pair(T.boolean(q['uid']), S.enc_prog(q['prog']),
-                                         T.nlist(sorted(q['ids']))))
-                    qkeep.append(q)
-            view_cases.append(T.pair(S.enc_view(view['recs']), T.lst(qterms)))
-            view_keep.append((box, view, qkeep, qterms))
+                if q['status'] != b'OK' or q['ids'] is None or q['parsed'] is None:
+                    continue
+                try:
+                    sk = T.lst(S.enc_skey(x) for x in q['parsed'])
+                except ValueError as exc:
+                    ctx.disagreement('search_parse', {'wire': q['wire'].decode('latin-1'),
+                                                      'unrepresentable': str(exc)})
+                    continue
+                qterms.append(T.pair(T.boolean(q['uid']), S.enc_prog(q['prog']),
+                                     T.nlist(sorted(q['ids'])), sk))
+                qkeep.append(q)
+            vterms.append(T.pair(S.enc_entries(view['recs']), T.lst(qterms)))
+            vkeep.append((view, qkeep, qterms))
+        box_cases.append(T.pair(S.enc_pool(pool), T.lst(vterms)))
+        box_keep.append((box, pool, vkeep))
         if i < 2 and box.views and box.views[0]['queries']:
             q = box.views[0]['queries'][0]
             ctx.sample({'search_wire': q['wire'].decode('latin-1'), 'result': q['ids'],
@@ -417,35 +454,32 @@ def section_search(ctx) -> None:
         'depth_histogram': dict(sorted(stats['depth'].items())),
         'key_histogram': dict(sorted(stats['kinds'].items())),
         'law_checks': stats['laws']}
-    bad = ctx.run_cases('search_views', HEADER, 'view * list (bool * list key * list N)',
-                        view_cases, 'chk_view', shard=4, jobs=14)
-    # name the queries of the disagreeing views
+    bad = ctx.run_cases('search_boxes', HEADER, 'pool * list (list entry * list query)',
+                        box_cases, 'chk_box', shard=max(1, -(-len(box_cases) // 16)), jobs=16)
+    # name the queries of the disagreeing mailboxes
     single, single_keep = [], []
-    for vi in bad[:6]:
-        box, view, qkeep, qterms = view_keep[vi]
-        vt = S.enc_view(view['recs'])
-        for q, qt in zip(qkeep, qterms):
-            single.append(T.pair(vt, qt))
-            single_keep.append((box, view, q))
+    for bi in bad[:4]:
+        box, pool, vkeep = box_keep[bi]
+        pt = S.enc_pool(pool)
+        for view, qkeep, qterms in vkeep:
+            et = S.enc_entries(view['recs'])
+            for q, qt in zip(qkeep, qterms):
+                single.append(T.pair(pt, et, qt))
+                single_keep.append((box, view, q))
     if single:
-        sbad = ctx.run_cases('search_queries_of_bad_views', HEADER,
-                             'view * (bool * list key * list N)', single, 'chk_view_query',
-                             shard=8, jobs=14)
+        sbad = ctx.run_cases('search_queries_of_bad_boxes', HEADER, 'pool * list entry * query',
+                             single, 'chk_box_query', shard=max(1, -(-len(single) // 16)), jobs=16)
         for j in sbad[:8]:
             box, view, q = single_keep[j]
             ctx.disagreement('search', {'wire': q['wire'].decode('latin-1'), 'impl': sorted(q['ids']),
                                         'uid_command': q['uid'], 'phase': view['phase'],
+                                        'parser_built': repr([(k.value, k.filter, k.inverse)
+                                                              for k in q['parsed']])[:300],
                                         'replay': _replay_of(box, q)})
         if not sbad:
-            for vi in bad[:3]:
-                ctx.disagreement('search', {'view_not_wellformed_or_unlocated': vi})
-    for j in ctx.run_cases('search_parse', HEADER, 'list key * list skey', parse_cases,
-                           'chk_parse', shard=400, jobs=14)[:8]:
-        box, q = parse_keep[j]
-        ctx.disagreement('search_parse', {'wire': q['wire'].decode('latin-1'),
-                                          'uid_command': q['uid'],
-                                          'parser_built': repr([(k.value, k.filter, k.inverse)
-                                                                for k in q['parsed']])[:400]})
+            for bi in bad[:3]:
+                ctx.disagreement('search', {'box': bi, 'why': 'view not well-formed (numbering, '
+                                            'UID order, header-name case) or a UID missing from the pool'})
 
 
 # ------------------------------------------------------ strings, unit level
@@ -475,14 +509,16 @@ def section_strings(ctx) -> None:
         ctx.count(('in', needle, hay), nontrivial=obs)
     for a in alphabet:            # sweep: every pair of interesting characters
         for b in alphabet:
-            add(a, b)
-            add(a + 'x', 'y' + b + 'x')
+            add(a if a < b else a + 'x', b if a < b else 'y' + b + 'x')
     for c in range(0, 0x250):     # every code point of the first blocks vs its case variants
         ch = chr(c)
-        for other in {ch.lower(), ch.upper(), ch.swapcase(), chr(c ^ 0x20)}:
+        others = {ch.lower(), ch.upper()} - {ch}
+        if c < 0x100:
+            others |= {ch, chr(c ^ 0x20)}
+        for other in sorted(others):
             if len(other) == 1:
                 add(ch, other)
-    for _ in range(ctx.scale(600, 6000)):
+    for _ in range(ctx.scale(400, 6000)):
         hay = ''.join(rng.choice(alphabet + 'bcxy ') for _ in range(rng.randint(0, 12)))
         if hay and rng.random() < 0.6:
             i = rng.randrange(len(hay))
@@ -498,7 +534,7 @@ def section_strings(ctx) -> None:
     for c in range(256):
         if c in bad_bytes or c == 0:
             continue
-        for other in {c, c ^ 0x20, (c + 32) % 256, (c - 32) % 256}:
+        for other in (c, c ^ 0x20):
             if other in bad_bytes or other == 0:
                 continue
             for header in (False, True):
